@@ -90,7 +90,9 @@ def judge(op, impl, model, spec):
             # first frame's payload length vs max_len
             ln = int(F.ann(op, "len"))
             if ln > maxlen:
-                good = toks[0] == "err:len" and kv["buf"] == "0"
+                good = toks[0] == "err:len" and (kv["buf"] == "0" or F.ann(op, "again") == "1")
+                if F.ann(op, "again") == "1" and any(t.startswith("some:b") and (len(t) - 6) // 2 > maxlen for t in toks):
+                    good = False            # a value longer than the limit was delivered
             else:
                 exp = F.ann(op, "exp").split("/")
                 good = toks[:len(exp)] == exp
@@ -194,6 +196,10 @@ def maxlen_ops(rng, tier):
                 # a rejected length leaves the stream mid-frame: only the rejecting call is constrained
                 nr = 3 if len(p) <= ml else 1
                 ops.append(f"fread {ml} {nr} {gen.hexb(st)} {F.script_tok(sc)} #k=maxlen #len={len(p)} #exp={exp}")
+                if len(p) > ml:
+                    # … and asked again with the limit unchanged: whatever the following bytes are taken for, the refused length is not
+                    # admitted after all (the allocation bound still holds, the answers are the model's)
+                    ops.append(f"fread {ml} 3 {gen.hexb(st)} {F.script_tok(sc)} #k=maxlen #len={len(p)} #exp={exp} #again=1")
     # hostile prefixes: the length is only a claim
     for pre in ["ffffffff", "7fffffff", "80000000", "00100000", "00010000", "00000100", "00000011"]:
         ln = int(pre, 16)
